@@ -1,5 +1,179 @@
-(** PLACEHOLDER during harness development; replaced by the real statements. *)
+(** C04 — Racing callsite registration and collector turnover converge; none is stranded.
+    Statements only; the micro-step model is Dispatch/Sched_Model.v, the proofs are Dispatch/Sched_Proofs_*.v.
+
+    Reading guide.  [step W s t] performs ONE shared-memory access of thread [t] (an atomic load / store / CAS / swap,
+    an Arc upgrade, a lock acquire or release in callsite.rs register / register_dispatch / rebuild_interest_cache,
+    MacroCallsite::{interest,register,is_enabled}, metadata.rs set_max, dispatch.rs set_global_default, reload.rs
+    modify) or blocks ([None]).  A schedule is any [list tid]; [reachable (step W) (init progs) s] quantifies over
+    EVERY schedule of ANY number of threads running ANY programs over
+    {OEmit (first hits included), ONew, ODrop, OSetDefault, OCloseScope, OSetGlobal, ORebuild, OReload}.
+    [W] fixes what collectors answer (register_callsite / enabled / max_level_hint as functions of the value in the
+    collector's filter cell); [WFworld W] is the property's side condition "self-consistent filters, the hint is a true
+    upper bound".  [instP s c]: Dispatch::new(c) has returned; [live s c]: c's Arc strong count is non-zero.
+    An [EvEmitEnd t cs cur0 quiet vals fend d] event records a finished emission at callsite cs on thread t: d = the
+    collector whose event()/new_span() was called; the other fields are history variables whose meaning is pinned by
+    [C04_ghost_*] below: cur0 = t's current collector when the emission started, quiet = no reload overlapped it,
+    vals = the values of cur0's filter cell in play when the verdict was taken, fend = the value at the end. *)
+From Coq Require Import List Arith Bool.
 From TV Require Import Dispatch.Sched_Model.
-Theorem C04_placeholder : forall a, interest_and a a = a.
-Proof. destruct a; reflexivity. Qed.
-Print Assumptions C04_placeholder.
+From TV Require Import Dispatch.Sched_Proofs_Base.
+From TV Require Import Dispatch.Sched_Proofs_Lock.
+From TV Require Import Dispatch.Sched_Proofs_Reg.
+From TV Require Import Dispatch.Sched_Proofs_Progress.
+From TV Require Import Dispatch.Sched_Proofs_Ghost.
+From TV Require Import Dispatch.Sched_Proofs_Cache.
+From TV Require Import Dispatch.Sched_Proofs_Emit.
+From TV Require Import Dispatch.Sched_Proofs_Main.
+From TV Require Import Dispatch.Sched_Examples.
+Import ListNotations.
+
+(** ** No thread deadlocks: in every reachable state with an unfinished thread some thread can move.
+    (One RwLock, never held across a blocking acquire; the REGISTERING-CAS loser and the list-CAS loser never wait;
+    a reload cell's write lock is held only across the assignment.) *)
+Theorem C04_no_deadlock :
+  forall W progs s, reachable (step W) (init progs) s ->
+  (exists t, t < st_n s /\ th_done (st_thr s t) = false) ->
+  exists t, step W s t <> None.
+Proof. exact no_deadlock. Qed.
+Print Assumptions C04_no_deadlock.
+
+(** non-vacuity: a reachable state in which a thread IS blocked (first hit waiting for the read lock while a
+    rebuild holds the write lock) and another one can move *)
+Theorem C04_no_deadlock_nonvacuous :
+  reachable (step WX) (init PA) sA /\ (exists t, t < st_n sA /\ th_done (st_thr sA t) = false) /\
+  pcof sA 1 = PRgRLock 0 /\ step WX sA 1 = None /\ step WX sA 0 <> None.
+Proof. exact blocked_witness. Qed.
+Print Assumptions C04_no_deadlock_nonvacuous.
+
+(** ** The list CAS: a success pushed onto exactly the list that was loaded (so linking `next` to the loaded head is
+    right); a failure means another registration was pushed since the load, and the retry works on the current,
+    strictly longer list — the retries of one registration are bounded by the pushes of the others. *)
+Theorem C04_push_progress :
+  forall W progs s t s' cs l0, reachable (step W) (init progs) s ->
+  pcof s t = PRgPushCas cs l0 -> step W s t = Some s' ->
+  (st_list s = l0 /\ st_list s' = cs :: l0 /\ pcof s' t = PRgRUnlock cs) \/
+  (length l0 < length (st_list s) /\ st_list s' = st_list s /\ pcof s' t = PRgPushCas cs (st_list s)).
+Proof. exact push_progress. Qed.
+Print Assumptions C04_push_progress.
+
+Theorem C04_push_progress_nonvacuous :
+  reachable (step WX) (init PB) sB /\ pcof sB 0 = PRgPushCas 0 [] /\ st_list sB = [1] /\
+  pcof (exec1 (step WX) sB 0) 0 = PRgPushCas 0 [1].
+Proof. exact retry_witness. Qed.
+Print Assumptions C04_push_progress_nonvacuous.
+
+(** ... and the assertion in `push` never fires: no registration is ever linked twice (no panic from the registry). *)
+Theorem C04_never_corrupt :
+  forall W progs s, reachable (step W) (init progs) s ->
+  NoDup (st_list s) /\ forall t cs, ~ In (EvCorrupt t cs) (st_log s).
+Proof. exact never_corrupt. Qed.
+Print Assumptions C04_never_corrupt.
+
+(** ** During the race an emission is never delivered to a collector whose filter rejects it — outside finding F41.
+    Whoever receives the emission is the collector that was current when it started (or, if none was, a global
+    default installed meanwhile whose own enabled() was asked), and one value of that collector's filter accepts it. *)
+Theorem C04_safety_during_race :
+  forall W, WFworld W -> forall progs s, reachable (step W) (init progs) s ->
+  forall t cs cur0 q vals fend d, In (EvEmitEnd t cs cur0 q vals fend (Some d)) (st_log s) ->
+  ~ F41_class cur0 vals ->
+  (cur0 = Some d \/ cur0 = None) /\ exists f, In f vals /\ accepts W f cs = true.
+Proof. exact safety_during_race. Qed.
+Print Assumptions C04_safety_during_race.
+
+(** Finding F41 (known): an emission that began with no current collector, loaded a cached `always`, and found a
+    global default installed when it dispatched, is delivered to that collector although its filter rejects it. *)
+Theorem C04_F41_refuted :
+  WFworld WX /\ reachable (step WX) (init P41) s41 /\
+  In (EvEmitEnd 1 0 None true [] None (Some 1)) (st_log s41) /\ F41_class None [] /\
+  accepts WX (st_cell s41 1) 0 = false.
+Proof. exact F41_refuted. Qed.
+Print Assumptions C04_F41_refuted.
+
+(** ** An emission that starts after a collector's installation has completed (the collector is the thread's
+    current one when the emission starts) is judged by that collector: it goes to it or to nobody, and that is the
+    verdict of one value [f] of its filter cell ... *)
+Theorem C04_after_install :
+  forall W, WFworld W -> forall progs s, reachable (step W) (init progs) s ->
+  forall t cs c q vals fend d, In (EvEmitEnd t cs (Some c) q vals fend d) (st_log s) ->
+  exists f, In f vals /\ d = (if accepts W f cs then Some c else None).
+Proof. exact after_install. Qed.
+Print Assumptions C04_after_install.
+
+(** ... and, when no reload overlaps the emission (always the case for programs without OReload), of THE value of its
+    cell: the emission is delivered IFF the collector's own filter accepts it — C01's "iff", under every schedule,
+    racing registrations / creations / drops / rebuilds included, first hits included. *)
+Theorem C04_exact_verdict :
+  forall W, WFworld W -> forall progs s, reachable (step W) (init progs) s ->
+  forall t cs c vals fend d, In (EvEmitEnd t cs (Some c) true vals fend d) (st_log s) ->
+  exists f, fend = Some f /\ d = (if accepts W f cs then Some c else None).
+Proof. exact quiet_exact. Qed.
+Print Assumptions C04_exact_verdict.
+
+Theorem C04_verdict_nonvacuous :
+  reachable (step WX) (init PD) sD /\ finished sD = true /\
+  In (EvEmitEnd 0 0 (Some 0) true [2] (Some 2) (Some 0)) (st_log sD) /\
+  In (EvEmitEnd 0 1 (Some 0) true [2] (Some 2) None) (st_log sD) /\
+  accepts WX 2 0 = true /\ accepts WX 2 1 = false /\
+  st_list sD = [1; 0] /\ instP sD 0 /\ live sD 0 = true /\ st_max sD = 5.
+Proof. exact verdict_witness. Qed.
+Print Assumptions C04_verdict_nonvacuous.
+
+(** ** Once the activity quiesces C01's invariant holds: a cached `never` / `always` is the answer of EVERY live
+    collector's current filter (no callsite stranded at `never` for a collector that wants it), the global max level
+    is not below any live collector's hint, every live collector is in the dispatcher list, every listed callsite has
+    a cached interest and was offered to every live collector. *)
+Theorem C04_quiescent_exact :
+  forall W progs s, reachable (step W) (init progs) s -> finished s = true -> QInv W s.
+Proof. exact quiescent_exact. Qed.
+Print Assumptions C04_quiescent_exact.
+
+(** the fields of [QInv], spelled out *)
+Theorem C04_quiescent_fields :
+  forall W s, QInv W s ->
+  (forall cs c, st_cache s cs = Some INever -> instP s c -> live s c = true -> w_interest W (st_cell s c) cs = INever) /\
+  (forall cs c, st_cache s cs = Some IAlways -> instP s c -> live s c = true -> w_interest W (st_cell s c) cs = IAlways) /\
+  (forall c, instP s c -> live s c = true -> w_hint W (st_cell s c) <= st_max s) /\
+  (forall c, instP s c -> live s c = true -> In c (st_disps s)) /\
+  (forall cs, In cs (st_list s) -> st_cache s cs <> None) /\
+  (forall cs, st_reg s cs = Registered -> In cs (st_list s)) /\
+  (forall cs c, In cs (st_list s) -> instP s c -> live s c = true -> exists t, In (EvAsk t c cs) (st_log s)).
+Proof. exact QInv_fields. Qed.
+Print Assumptions C04_quiescent_fields.
+
+(** ** Every registered callsite was offered (register_callsite was called) to every collector that has completed
+    Dispatch::new and is live — in every reachable state, hence to every collector live afterwards. *)
+Theorem C04_offered :
+  forall W progs s, reachable (step W) (init progs) s ->
+  forall cs c, In cs (st_list s) -> instP s c -> live s c = true -> exists t, In (EvAsk t c cs) (st_log s).
+Proof. exact offered. Qed.
+Print Assumptions C04_offered.
+
+(** ** Meaning of the history variables (read off the definition of [step]). *)
+Theorem C04_ghost_start :
+  forall W s t s', step W s t = Some s' -> pcof s t = PIdle -> em_pc (pcof s' t) = true ->
+  eg_cur0 (th_eg (st_thr s' t)) = cur s t /\ eg_q0 (th_eg (st_thr s' t)) = negb (reload_inflight s) /\
+  eg_ep0 (th_eg (st_thr s' t)) = st_epoch s.
+Proof. exact ghost_start. Qed.
+Print Assumptions C04_ghost_start.
+
+Theorem C04_ghost_kept :
+  forall W s t s', step W s t = Some s' -> em_pc (pcof s t) = true -> em_pc (pcof s' t) = true ->
+  eg_cur0 (th_eg (st_thr s' t)) = eg_cur0 (th_eg (st_thr s t)) /\ eg_q0 (th_eg (st_thr s' t)) = eg_q0 (th_eg (st_thr s t)) /\
+  eg_ep0 (th_eg (st_thr s' t)) = eg_ep0 (th_eg (st_thr s t)).
+Proof. exact ghost_kept. Qed.
+Print Assumptions C04_ghost_kept.
+
+Theorem C04_ghost_event :
+  forall W s t s' t' cs cur0 quiet vals fend d, step W s t = Some s' ->
+  In (EvEmitEnd t' cs cur0 quiet vals fend d) (new_events s s') ->
+  t' = t /\ fend = option_map (st_cell s) cur0 /\
+  ((pcof s t = PIdle /\ cur0 = cur s t /\ quiet = negb (reload_inflight s) /\ vals = vals_now s cur0 /\ d = None) \/
+   (em_pc (pcof s t) = true /\ cur0 = eg_cur0 (th_eg (st_thr s t)) /\
+    quiet = (eg_q0 (th_eg (st_thr s t)) && (eg_ep0 (th_eg (st_thr s t)) =? st_epoch s)))).
+Proof. exact emit_event_ghost. Qed.
+Print Assumptions C04_ghost_event.
+
+(** the worlds the correspondence instantiates satisfy the side condition (the example world of this file) *)
+Theorem C04_example_world_wf : WFworld WX.
+Proof. exact WX_wf. Qed.
+Print Assumptions C04_example_world_wf.
